@@ -29,6 +29,10 @@ func c09Core(ids [3]uint16, mask int) *ref.Struct {
 		}
 		s.Fields = append(s.Fields, fd(ids[i], req, types[i]))
 	}
+	// declared in the order 3rd, 1st, 2nd: the Go declaration order is not the id order
+	s.Fields = []*ref.Field{s.Fields[2], s.Fields[0], s.Fields[1]}
+	universe.StructGoType(s)
+	s.SortFields()
 	return s
 }
 
@@ -142,6 +146,7 @@ func init() {
 			}
 			ps := []*harness.Phase{
 				{Name: "required-decode", Bound: bound, Rule: "5 (thorough 7) id triples x 8 required-masks x 8 nesting positions x (64 omission pairs + 3 wrong-wire-type variants) x 6 one-call histories (none / successful same type / successful sibling type / required-missing failure / truncation failures) x pool answers with <=bound deviations; distinct by (type, message, history)", Body: func(c *explore.C) { c09Decode(c, tier) }},
+				{Name: "required-many", Rule: "a struct with 73 fields (ids 1..70, 4096, 32768, 65535; declared in descending id order) of which all / the last nine / every seventh are required: every single omission x 4 second omissions; the error must name a lacking field", Body: func(c *explore.C) { c09Many(c, tier) }},
 				{Name: "required-encode", Rule: "7 id triples x 8 masks x 8 positions x {zero, nil, set} values: every required field id occurs in the output", Body: func(c *explore.C) { c09Encode(c, tier) }},
 			}
 			return append(ps, e3Phases("C09")...)
@@ -229,6 +234,64 @@ func c09Decode(c *explore.C, tier universe.Tier) {
 	harness.Cur.Sample(func() interface{} {
 		return map[string]interface{}{"type": outer.String(), "message": hx(msg), "how": how, "reference": fmt.Sprintf("ok=%v missing=%v", dv.Exp.OK, dv.Exp.Missing)}
 	})
+}
+
+// c09Many: 70 required fields at ids 1..70 plus three far ones; every single omission and a few pairs.
+func c09Many(c *explore.C, tier universe.Tier) {
+	const n = 73
+	omitA := c.Choose(n+1, explore.Data, "omitted-field") // n = none
+	omitB := c.Choose(4, explore.Data, "second-omission")
+	which := c.Choose(3, explore.Data, "which-fields-are-required") // all / only the last nine / every seventh
+	harness.Cur.Crumb(c.Choices())
+	hooks.Reset()
+	core := &ref.Struct{}
+	for i := 0; i < n; i++ {
+		id := uint16(1 + i)
+		if i >= 70 {
+			id = []uint16{4096, 32768, 65535}[i-70]
+		}
+		req := ref.ReqRequired
+		if which == 1 && i < n-9 || which == 2 && i%7 != 0 {
+			req = ref.ReqDefault
+		}
+		core.Fields = append(core.Fields, fd(id, req, universe.Sc([]ref.Kind{ref.KI8, ref.KString, ref.KBool}[i%3])))
+	}
+	// Go declaration order differs from id order (descending): names must still be reported per field
+	for a, b := 0, len(core.Fields)-1; a < b; a, b = a+1, b-1 {
+		core.Fields[a], core.Fields[b] = core.Fields[b], core.Fields[a]
+	}
+	universe.StructGoType(core)
+	core.SortFields()
+	w := c09Writer(core, -1)
+	v := &ref.Val{K: ref.KStruct, F: make([]*ref.Val, n)}
+	for i, f := range w.Fields {
+		v.F[i] = universe.Nth(f.Type, i)
+	}
+	if omitA < n {
+		v.F[omitA] = nil
+	}
+	if omitB > 0 {
+		v.F[[]int{0, 63, 64, 72}[omitB]] = nil
+	}
+	msg := ref.Encode(w, v)
+	dv := decodeAndCompare(core, msg, decodeOpts{Guard: true})
+	if dv.Class != "" {
+		c.Fail(fmt.Sprintf("%s [73 fields, required set %d, omitted #%d and variant %d]", dv.Msg, which, omitA, omitB), mkCase("C09", dv.Class, core, nil, msg, dv.detail()))
+		return
+	}
+	if !dv.Exp.OK && dv.Exp.Err == ref.ERequired {
+		named := false
+		for _, nm := range dv.Exp.Missing {
+			if strings.Contains(dv.Res.Err.Error(), `"`+nm+`"`) {
+				named = true
+			}
+		}
+		if !named {
+			c.Fail(fmt.Sprintf("required-field error %q names none of the lacking fields %v [73 fields declared in descending id order]", dv.Res.Err, dv.Exp.Missing), mkCase("C09", "wrong-field-named", core, nil, msg, dv.detail()))
+			return
+		}
+	}
+	harness.Cur.Outcome(harness.Hash64(msg), fmt.Sprintf("ok=%v", dv.Exp.OK))
 }
 
 func c09Encode(c *explore.C, tier universe.Tier) {
